@@ -20,19 +20,24 @@ PROPERTY = "C17"
 META = {
     "level_text": "TLC checks the clauses of C17 (legal transitions, function order, stopping-iff-started, context cancelled before stopping, "
                   "exact waiter latches, no double close, first error wins, listener order, notifier never blocks, no nil cancel call; manager: "
-                  "healthy/stopped exact, failure reported once, latches) exhaustively on Service.tla (one service, 2 StopAsync callers as two "
-                  "critical sections each, listeners, waiters, parent cancel, every function outcome, nil functions, idle/timer variants) and on "
-                  "Manager.tla (2 services exhaustive, 3 by simulation). The code is bound to the specification in both directions: every "
-                  "transition of the gate-granularity state graph (built from the same operators) is replayed on real BasicService/Manager "
-                  "objects inside testing/synctest with the observable state compared after every step, and traces of free-running goroutines "
-                  "racing the API are accepted by TLC, which infers the unlogged critical sections.",
-    "level_note": "Trusted: TLC; the harness gates (service functions, listener callbacks, the verif hook between the two critical sections of "
-                  "StopAsync); testing/synctest quiescence; the projection of the API (State, FailureCase, ServiceContext, Await* results, "
-                  "callback logs) onto the specification's observation. Bounded: <=2 racing StopAsync callers (4 in traces), <=2 listeners, "
-                  "2 waiters, managers of <=3 services. A listener-channel buffer smaller than 4 is decided on the specification only "
-                  "(not observable through the API).",
+                  "healthy/stopped exact, failure reported once - also to listeners added late or removed -, latches; failure watcher: reported "
+                  "at most once, never on the closed channel, Close returns if somebody reads) exhaustively on Service.tla (one service, 2 "
+                  "StopAsync callers as two critical sections each, listeners, waiters, parent cancel, every function outcome, nil functions, "
+                  "the run loops of idle and timer services specified step by step), Manager.tla (2 services exhaustive, 3 by simulation) and "
+                  "FailureWatcher.tla. The code is bound to the specification in both directions: every transition of the gate-granularity state "
+                  "graphs (built from the same operators) is replayed on real BasicService / NewIdleService / NewTimerService (gated iteration "
+                  "function under the bubble clock) / Manager / FailureWatcher objects inside testing/synctest with the observable state "
+                  "compared after every step, and traces of free-running goroutines racing the API are accepted by TLC, which infers the "
+                  "unlogged critical sections.",
+    "level_note": "Trusted: TLC; the harness gates (service functions, timer iteration, listener callbacks, the verif hook between the two "
+                  "critical sections of StopAsync); testing/synctest quiescence; the projection of the API (State, FailureCase, ServiceContext, "
+                  "Await* results, callback logs, Chan()) onto the specification's observation. Bounded: <=2 racing StopAsync callers (4 in "
+                  "traces), <=2 listeners, 2 waiters, <=3 timer ticks, managers of <=3 services (abstract services at delivery granularity), "
+                  "failure watchers over 3 services. A listener-channel buffer smaller than 4 is decided on the specification only (not "
+                  "observable through the API). FailureWatcher.Close blocking while a report is pending and nobody reads is specified and "
+                  "expected as a named behaviour, not judged.",
     "technique": "TLA+ specifications model-checked by TLC; TLC-generated behaviours replayed into the real code (path cover of the gated "
-                 "state graph); traces recorded from the real code validated by TLC",
+                 "state graphs); traces recorded from the real code validated by TLC",
     "design_ref": "DESIGN.md 2 C17",
 }
 
@@ -43,6 +48,7 @@ GATED = {
     "MC_nilcancel": dict(nc=2, nl=0, wrun=[], wterm=[]),
     "MC_gated_core": dict(nc=2, nl=1, wrun=[], wterm=[]),
     "MC_gated_timer_w": dict(nc=1, nl=0, wrun=[1], wterm=[2]),
+    "MC_gated_timer3": dict(nc=1, nl=1, wrun=[], wterm=[]),
     "MC_gated_modes": dict(nc=1, nl=1, wrun=[], wterm=[]),
     "MC_gated_nilfn5": dict(nc=1, nl=1, wrun=[], wterm=[]),
     "MC_gated_wait": dict(nc=1, nl=0, wrun=[1], wterm=[2]),
@@ -137,13 +143,14 @@ def run(ctx):
         # pinned code violates NoNilCancelCall; its counterexample is replayed. The quick tier takes the same witness from the
         # behaviours of MC_gated_core (a printed state with nilCalls > 0 is a counterexample of the invariant).
         gated = ["MC_gated_core", "MC_gated_modes", "MC_gated_wait", "MC_gated_nilfn"] if quick else \
-                ["MC_gated_core", "MC_gated_modes", "MC_gated_timer_w", "MC_gated_wait", "MC_gated_nilfn5", "MC_gated_lw", "MC_gated_l2"]
+                ["MC_gated_core", "MC_gated_modes", "MC_gated_timer3", "MC_gated_timer_w", "MC_gated_wait", "MC_gated_nilfn5", "MC_gated_lw", "MC_gated_l2"]
         mg = [("MC_mgated_one", None, None), ("MC_mgated_cover" if quick else "MC_mgated_cover1", None, None), ("MC_mgated_sim", "num=%d" % (40 if quick else 400), 40)]
         if not quick:
             mg.append(("MC_mgated_sim3", "num=300", 60))
         thunks = [tlc_ok("ServiceGated", cfg, heap="3g") for cfg in gated]
         thunks += [tlc_ok("ManagerGated", cfg, heap="3g", simulate=sim, depth=depth, count=not sim, workers=(W if not sim else 2))
                    for cfg, sim, depth in mg]
+        thunks.append(tlc_ok("FailureWatcherGated", "MC_fwgated", heap="2g", workers=2))
         if not quick:
             def nilcancel(sub):
                 r = sub.tlc("services", "ServiceGated", cfg="MC_nilcancel.cfg", timeout=600, workers=1, count=False, heap="2g")
@@ -161,7 +168,7 @@ def run(ctx):
             open(cex, "w").write(first)
             ctx.extra["f4_spec_counterexample"] = [s[0] + ":" + str(s[1]) for s in json.loads(first)["h"][1:]]
             jobs.append(dict(kind="service", name="MC_nilcancel(counterexample of NoNilCancelCall)", **{"in": cex}, **GATED["MC_nilcancel"]))
-        for cfg, r in zip(gated + [m[0] for m in mg], outs):
+        for cfg, r in zip(gated + [m[0] for m in mg] + ["MC_fwgated"], outs):
             if r.emitted == 0:
                 incon("%s emitted nothing" % cfg)
             emitted[cfg] = r.emitted
@@ -178,7 +185,9 @@ def run(ctx):
                 ctx.extra["f4_spec_counterexample"] = [s[0] + ":" + str(s[1]) for s in best["h"][1:]]
             if os.environ.get("VERIF_C17_CORRUPT") == "obs" and cfg.startswith("MC_gated_core"):
                 corrupt_one_observation(r.out_path)
-            if cfg in GATED:
+            if cfg == "MC_fwgated":
+                jobs.append(dict(kind="fw", name=cfg, ns=3, **{"in": r.out_path}))
+            elif cfg in GATED:
                 jobs.append(dict(kind="service", name=cfg, **{"in": r.out_path}, **GATED[cfg]))
             else:
                 jobs.append(dict(kind="manager", name=cfg, **{"in": r.out_path}, **MGATED[cfg]))
